@@ -13,6 +13,7 @@ CONSTANTS
   SwCollectOncePerIssue = TRUE
   SwPoolNewFresh = TRUE
   SwFrontEndIssueFresh = TRUE
+  SwResultOwnsStorage = TRUE
 INIT Init
 NEXT Next
 VIEW View
